@@ -240,20 +240,12 @@ def main(argv=None) -> int:
   cap = float(os.environ.get('VERIF_WALL_S', '900' if a.tier == 'thorough' else '240'))
   # (a shard that declares expect_s - the CPU time it needs to close - is sized by that; its budget_s is only the point
   # where it is given up as INCOMPLETE, and it is not scaled unless the expected times themselves exceed the cap)
+  if a.tier == 'thorough':
+    for s in shards:
+      s.pop('expect_s', None)        # (thorough shards are sized by their nominal budgets: the wall cap is a hard bound)
   total = sum(s.get('expect_s', s.get('budget_s', 60)) for s in shards)
   allowed = cap * max(1, min(a.jobs, len(shards) or 1)) * 0.85
   extra_evidence = {}
-  if a.tier == 'thorough' and not a.only:
-    # shards that closed in the quick reference run close here in the same number of paths: size them by that
-    try:
-      cal = json.load(open(os.path.join(VERIF, 'calibration.json'))).get(prop, {})
-    except Exception:  # pylint: disable=broad-except
-      cal = {}
-    for s in shards:
-      c = cal.get(s['name'])
-      if c and c['closed'] and 'expect_s' not in s:
-        s['expect_s'] = min(float(s.get('budget_s', 60)), 2.0 * float(c['cpu_s']) + 5)
-    total = sum(s.get('expect_s', s.get('budget_s', 60)) for s in shards)
   if a.tier == 'thorough' and total > allowed * 4 and not a.only:
     # The thorough families are larger than the wall cap at a useful depth: rather than shrinking every budget below
     # a quarter of its nominal value, this run takes every quick-tier shard plus a seed-rotated sample of the rest
